@@ -242,6 +242,109 @@ def check_transform_list(ctx, out, descs, ws, wres):
     else:
         out.count('transform_list_ok')
 
+def gate_tie(comps, w, wres) -> bool:
+    """the binary64 decision of the code's own gate formula differs from the decision on the exact
+    rationals of the same floats: only within a few ulp of the boundary; never judged"""
+    from fractions import Fraction
+    W, R = Fraction(w), Fraction(wres)
+    for c in comps:
+        if 'source' not in c.type or 'w' not in c.value:
+            continue
+        ws = float(c.value['w'])
+        if c.type.startswith('periodic'):
+            if ws <= 0: continue
+            n = float(np.round(w / ws))
+            fl_off = bool(np.abs(w / ws - n) > wres / ws)
+            k = (W / Fraction(ws)).__floor__()
+            ex_on = any(abs(W - m * Fraction(ws)) <= R for m in (k, k + 1))
+        else:
+            fl_off = bool(np.abs(w - ws) > wres)
+            ex_on = abs(W - Fraction(ws)) <= R
+        if fl_off == ex_on:
+            return True
+    return False
+
+RESOLUTIONS = [1e-6, 1e-4, 1e-3, 0.05, 0.5, 2.0 ** -16, 2.0 ** -10, 2.0 ** -4, 0.25]
+
+def check_transform_resolution(ctx, out, descs, ws, r):
+    """`transform(circuit, [w…], w_resolution=r)`: entry k is `transform_circuit(circuit, ws[k], r)` branch by
+    branch, and every branch is the Spec table entry for that (w, r) — the resolution the caller passes is the
+    one the translators use"""
+    from CircuitCalculator.Circuit import circuit as cc
+    drv = ctx.driver
+    out.evaluations += 1
+    comps = [gc.build(d) for d in descs]
+    inp = dict(components=gc.pretty(descs), w=list(ws), w_resolution=r)
+    try:
+        C = cc.Circuit(comps)
+        many = cc.transform(C, list(ws), r)
+        single = [cc.transform_circuit(C, w, r) for w in ws]
+    except Exception as e:
+        out.spec_fail(dict(op='transform', symptom='raises', exc=gc.tag(e)), f'transform raises {type(e).__name__}: {e}', inp,
+                      descs=descs, w=list(ws), wres=r)
+        return
+    if len(many) != len(ws):
+        out.spec_fail(dict(op='transform', symptom='length'), 'transform does not return one network per frequency', inp,
+                      impl=len(many), descs=descs, w=list(ws), wres=r)
+        return
+    non_ground = [c for c in comps if c.type != 'ground']
+    for k, w in enumerate(ws):
+        if not (gc.finite_net(many[k]) and gc.finite_net(single[k])):
+            continue
+        a, b = gc.net_json(many[k]), gc.net_json(single[k])
+        if a != b:
+            bad = [x['id'] for x, y in zip(a['branches'], b['branches']) if x != y]
+            kinds = sorted({c.type for c in non_ground if c.id in bad})
+            out.spec_fail(dict(op='transform', symptom='differs_from_transform_circuit', component_kind=kinds[0] if kinds else '*',
+                               default_resolution=(r == 1e-3)),
+                          f'transform(…, w_resolution={r})[{k}] differs from transform_circuit(…, {w}, {r}) in {bad}',
+                          dict(inp, index=k), impl=a, spec=b, descs=descs, w=[w], wres=r)
+            return
+        if drv is None or gate_tie(comps, w, r):
+            if drv is not None: out.skip('tie_margin')
+            continue
+        trig, harm = gc.params_for(comps, w)
+        sp = drv.call('cc_spec_net', components=[gc.comp_json(c) for c in comps], w=core.q(w), wres=core.q(r), trig=trig, harm=harm)
+        by_id = {x['id']: x for x in a['branches']}
+        for c, s_ in zip(non_ground, sp['branches']):
+            if s_['branch'] is None or c.id not in by_id:
+                continue
+            diff = spec_compare(by_id[c.id], s_['branch'])
+            if diff is not None:
+                out.spec_fail(dict(op='transform', symptom='wrong_record', field=diff, component_kind=c.type, default_resolution=(r == 1e-3)),
+                              f'transform(…, w_resolution={r}) at w={w}: branch of {c.id!r} ({c.type}) differs from the intended one in its {diff}',
+                              dict(inp, index=k), impl=by_id[c.id], spec=s_['branch'], descs=descs, w=[w], wres=r)
+                return
+        out.nontrivial(('transform_resolution', r, k))
+    out.count('transform_resolution_ok')
+
+def resolution_sweep(ctx, out):
+    rng = ctx.rng('resolution')
+    rs = RESOLUTIONS if not ctx.quick else RESOLUTIONS[:5] + rng.sample(RESOLUTIONS[5:], 2)
+    for r in rs:
+        for rep in range(2 if ctx.quick else 8):
+            src_w = rng.choice([1.0, 2.0, 4.0, 8.0])
+            p0 = rng.choice([4.0, 16.0])                      # fundamental of the periodic source (power of two, > 2r)
+            descs = [dict(fn='ground', id='gnd', nodes=['0'], args={}),
+                     dict(fn='ac_voltage_source', id='Va', nodes=['1', '0'], args=dict(V=3.0, R=rng.choice([0.0, 2.0]), w=src_w, phi=gc.phase(rng))),
+                     dict(fn='ac_current_source', id='Ia', nodes=['0', '2'], args=dict(I=2.0, G=rng.choice([0.0, 0.5]), w=src_w, phi=gc.phase(rng))),
+                     dict(fn='dc_voltage_source', id='Vd', nodes=['3', '0'], args=dict(V=5.0, R=1.0)),
+                     dict(fn='dc_current_source', id='Id', nodes=['0', '3'], args=dict(I=1.0, G=0.25)),
+                     dict(fn='periodic_voltage_source', id='Vp', nodes=['4', '0'], args=dict(wavetype=rng.choice(['rect', 'saw', 'tri']), V=2.0, w=p0, phi=0.5, R=1.0)),
+                     dict(fn='periodic_current_source', id='Ip', nodes=['0', '4'], args=dict(wavetype='saw', I=1.0, w=p0, phi=0.25, G=0.5)),
+                     dict(fn='resistor', id='R1', nodes=['1', '2'], args=dict(R=2.0)),
+                     dict(fn='capacitor', id='C1', nodes=['2', '3'], args=dict(C=0.5)),
+                     dict(fn='inductance', id='L1', nodes=['3', '4'], args=dict(L=0.25))]
+            rng.shuffle(descs)
+            ws = []
+            for base in (src_w, 0.0, p0, 3 * p0):
+                for k in (0.5, 1.0, 1.5, 10.0):
+                    ws += [base + k * r, base - k * r]
+            ws = [w for w in dict.fromkeys(ws) if w >= 0] + [src_w, 0.0, p0]
+            if ctx.quick:
+                ws = rng.sample(ws, 12)
+            check_transform_resolution(ctx, out, descs, ws, r)
+
 # --------------------------------------------------------------------------- generators
 
 def frequencies_for(rng, d, wres):
@@ -302,13 +405,15 @@ CORPUS = [
 def run(ctx, out):
     out.rule = ('per constructor kind × list position × analysis frequency (0, the source frequency, dyadic offsets just '
                 'inside / on / outside the resolution, harmonics n·w0 of periodic sources, random) × both resolutions '
-                '(2^-10 and the default 1e-3); a case is non-trivial when the implementation\'s branch equals the '
+                '(2^-10 and the default 1e-3); transform(c, ws, r) for r ∈ {1e-6, 1e-4, 1e-3, 0.05, 0.5, 2^-16, 2^-10, 2^-4, 0.25} at source '
+                'frequency ± {0.5, 1, 1.5, 10}·r (dc / ac / periodic sources) against transform_circuit and the Spec at (w, r); a case is non-trivial when the implementation\'s branch equals the '
                 'intended branch of CC/Spec/Phasor.lean; distinct by (kind, origin, w = 0, tested component, list position, '
                 'source active, resolution)')
     drv = ctx.driver
     if drv is not None:
         check_tables(ctx, out)
     check_periodic_symmetry(ctx, out)
+    resolution_sweep(ctx, out)
     for descs, w, wres in CORPUS:
         check_case(ctx, out, descs, w, wres, 'corpus')
     rng = ctx.rng('kinds')
@@ -441,7 +546,9 @@ def replay(ctx, out, rp):
     if (rp.get('canon') or {}).get('field') == 'harmonic_selection':
         periodic_symmetry_case(out, descs[0], rp.get('harmonic', 1), wres)
         return
-    if isinstance(w, list):
+    if (rp.get('canon') or {}).get('op') == 'transform':
+        check_transform_resolution(ctx, out, descs, w if isinstance(w, list) else [w], wres)
+    elif isinstance(w, list):
         check_transform_list(ctx, out, descs, w, wres)
     else:
         check_case(ctx, out, descs, w, wres, 'replay')
